@@ -149,6 +149,10 @@ func (ds *dataStore) load(fileName string) (err error) {
 		if flagHasOne(pkh.Flags, FLAG_KEY_TYPE_STRING) {
 			var str []byte
 			err = dec.Decode(&str)
+			if str == nil {
+				// gob decodes a zero-length slice as nil; the key still holds an (empty) string
+				str = []byte{}
+			}
 			payload = str
 		} else if flagHasOne(pkh.Flags, FLAG_KEY_TYPE_HASH_TABLE) {
 			var table map[string]string
